@@ -452,6 +452,45 @@ class Run:
         self.monitor_events = []
 
 
+_PROXY_WORDS = ("SymInt", "SymBool", "SymBuf", "ArrBuf", "SymMem", "SymGrid", "_Row", "_PseudoMember", "EnumByValueProxy")
+_MON = {"installed": False, "run": None}
+
+
+def _install_monitor():
+    """Swallowed-exception monitor (DESIGN 2.7): a TypeError / AttributeError that CPython raises
+    because a proxy reached an operation it does not model would not occur on concrete values, so
+    the path being explored may not be a real one.  Code under proof often catches such errors
+    (`except Exception: pass`); every such event therefore makes the work unit undecided."""
+    if _MON["installed"]:
+        return
+    import sys
+    mon = getattr(sys, "monitoring", None)
+    if mon is None:
+        return
+    tool = mon.DEBUGGER_ID
+    try:
+        mon.use_tool_id(tool, "symx")
+    except ValueError:
+        return
+
+    def on_raise(code, offset, exc):
+        run = _MON["run"]
+        if run is None or not isinstance(exc, (TypeError, AttributeError)):
+            return
+        msg = str(exc)
+        if any(w in msg for w in _PROXY_WORDS):
+            fname = code.co_filename
+            if "/symx/" in fname and "selftest" not in fname:
+                return      # raised inside the engine on purpose (NotImplemented paths etc.)
+            ev = f"{type(exc).__name__}: {msg[:160]} @ {fname.rsplit('/', 1)[-1]}:{code.co_name}"
+            if ev not in run.monitor_events:
+                run.monitor_events.append(ev)
+
+    mon.register_callback(tool, mon.events.RAISE, on_raise)
+    mon.set_events(tool, mon.events.RAISE)
+    _MON["installed"] = True
+
+
 def explore(fn, max_paths=20000, max_enum=300, wall_s=None, run=None):
     """Run fn(engine) once per feasible path (DART-style re-execution).
 
@@ -461,6 +500,9 @@ def explore(fn, max_paths=20000, max_enum=300, wall_s=None, run=None):
     run = run or Run(max_paths, max_enum, wall_s)
     work = [[]]
     prev = _ENG
+    _install_monitor()
+    prev_run = _MON["run"]
+    _MON["run"] = run
     try:
         while work:
             prefix = work.pop()
@@ -484,6 +526,11 @@ def explore(fn, max_paths=20000, max_enum=300, wall_s=None, run=None):
                 raise Undecided("wall-clock budget exhausted")
     finally:
         _ENG = prev
+        _MON["run"] = prev_run
+        for ev in run.monitor_events:
+            note = "proxy reached an unmodelled operation (swallowed-exception monitor): " + ev
+            if note not in run.undecided:
+                run.undecided.append(note)
     return run
 
 
